@@ -481,12 +481,19 @@ def rule_moveonce(ctx, rep):
         # Box: re-typed to Box<ManuallyDrop<T>> and dropped
         for b in F.body_list:
             imp = b.get("impl") or {}
-            if b.get("name") != "from" or imp.get("trait") != "core::convert::From" or F.handle_name(imp["self_ty"]) != "Arc":
+            if b.get("name") != "from" or imp.get("trait") != "core::convert::From" or F.handle_name(imp["self_ty"]) not in ("Arc", "UniqueArc"):
                 continue
             if not any(F.ty(t)["k"] == "adt" and F.ty(t)["path"] == "alloc::boxed::Box" for t in b["inputs"]):
                 continue
             b = inline.inlined(F, b["key"]) or b  # `dealloc_box_without_drop(src)`: a private helper shared with the Vec constructor
             B = cfg.Body(b)
+            if F.handle_name(imp["self_ty"]) != "Arc":
+                # another handle's `From<Box<T>>`: judged like Arc's if it takes the box apart itself (or through a private helper
+                # whose precondition it must then establish); nothing to judge if it merely wraps `Arc::from(b)`
+                from .. import model as _m
+
+                if not any(_m.classify(atomics.callee_of(t) or "")[0] == _m.DEALLOC or (atomics.callee_of(t) or "").endswith("::from_raw") or (atomics.callee_of(t) or "") in VEC_FROM_RAW for _bi, t in B.calls()):
+                    continue
             ok = False
             why = "the source Box is not released as `Box<ManuallyDrop<T>>`"
             for bi, t in B.calls():
